@@ -357,6 +357,40 @@ pub fn run(run: &Run) {
         per_w.push(json!({"session": if kind == 0 { "server" } else { "client" }, "graph": "windows 1, 3, 2^24, 2^31-1, 2^31, 2^32-1 by re-announcement from 2", "depth_bound": edge_depth,
             "states": stats.states, "transitions": stats.transitions}));
     }
+    // ---- single calls far larger than the window and than any internal slice size (64 KiB, 1 MiB) ----
+    {
+        let mut n = 0u64;
+        for kind in 0..2u8 {
+            for w in [1u32, 1_000, 65_535, 65_536, 100_000] {
+                for size in [65_537usize, 70_000, 151_183, 1_048_577] {
+                    let g = G { w0: w, sizes: vec![], reannounce: vec![], acks: AtomicU64::new(0), exact_landings: AtomicU64::new(0), reannouncements: AtomicU64::new(0), others: AtomicU64::new(0) };
+                    let o = g.step(&fresh(kind), &Act::Reannounce(w));
+                    let mut cur = match o.succ.into_iter().next() {
+                        Some(x) => x,
+                        None => continue,
+                    };
+                    let script = [Act::Call(3), Act::Call(size), Act::Call(0), Act::Call(size / 2), Act::Call(1)];
+                    let mut done: Vec<Value> = Vec::new();
+                    for a in script.iter() {
+                        let o = g.step(&cur, a);
+                        ti += o.impl_steps;
+                        tt += 1;
+                        done.push(g.describe(a));
+                        if let Some((sig, d)) = o.viol.into_iter().next() {
+                            run.violation(&format!("{}/{}", sig, if kind == 0 { "server" } else { "client" }), &d, json!({"session": if kind == 0 { "server" } else { "client" }, "initial_window": w, "graph": "huge calls", "ops": done}));
+                            break;
+                        }
+                        cur = match o.succ.into_iter().next() {
+                            Some(x) => x,
+                            None => break,
+                        };
+                    }
+                    n += 1;
+                }
+            }
+        }
+        run.count("huge_call_scripts", n);
+    }
     // ---- sampled large windows (labelled as sampled, as the property itself does) ----
     let big: Vec<u32> = if thorough { vec![100, 4096, 65_535, 1 << 24, 1 << 31, u32::MAX] } else { vec![100, 65_535, 1 << 24] };
     let mut sampled = 0u64;
